@@ -1750,3 +1750,17 @@ package gomatrixserverlib
 //@ func referenceOfEvent
 //@   trusted
 //@   assigns nothing
+
+// ---- canonical JSON byte-level helpers (safety only; their functional contracts belong to C01)
+//@ func readHexDigits
+//@   property C18:safety
+//@   requires len(input) >= 4
+//@   ensures range: 0 <= result && result <= 65535
+
+// The escape decoder reads up to two bytes past the four hex digits of a high surrogate; inside a JSON string
+// (which is always closed by a quote) those bytes exist. That is the stated precondition; CompactJSON, which would
+// have to establish it from "the input is valid JSON", is not under contract.
+//@ func compactUnicodeEscape
+//@   property C18:safety
+//@   requires 0 <= index && index <= len(input)
+//@   requires (len(input) - index >= 4) ==> (index + 4 < len(input) && (input[index+4] == 92 ==> index + 5 < len(input)))
